@@ -380,6 +380,23 @@ class State:
             self.heap[name] = a
         return a
 
+    def closure_axiom(self, name, a):
+        """The pre-state is closed under reachability: a reference stored in a field / list slot / dict value of
+        an object that existed before the call denotes an object that existed before the call."""
+        r = z3.Int('r!cl')
+        old = r < self.alloc0
+        if name.startswith('F:'):
+            v = a[r]
+            self.fact(z3.ForAll([r], z3.Implies(z3.And(old, Val.is_r(v)), Val.rv(v) < self.alloc0), patterns=[v]))
+        elif name == 'L_el':
+            i = z3.Int('i!cl')
+            v = a[r][i]
+            self.fact(z3.ForAll([r, i], z3.Implies(z3.And(old, Val.is_r(v)), Val.rv(v) < self.alloc0), patterns=[v]))
+        elif name == 'D_val':
+            k = z3.String('k!cl')
+            v = a[r][k]
+            self.fact(z3.ForAll([r, k], z3.Implies(z3.And(old, Val.is_r(v)), Val.rv(v) < self.alloc0), patterns=[v]))
+
     def F(self, attr):
         return self.arr('F:' + attr)
 
@@ -412,6 +429,19 @@ class State:
         self.written.setdefault(name, []).append(ref if ref is not None else z3.IntVal(-1))
 
     def new_ref(self, cls_name: str):
+        bs = list(getattr(self, 'binders', ()) or ())
+        if bs:
+            # allocation inside a symbolic iteration: one object *per element* — an unknown reference that is a
+            # function of the index variables, inside a block of its own (so it differs from every object
+            # allocated outside the iteration); that two elements get two objects is not stated (weaker, sound)
+            self.fresh_n += 1
+            f = z3.Function(f'obj!{self.fresh_n}', *([I] * len(bs)), I)
+            r = f(*bs)
+            lo = self.alloc0 + self.nalloc
+            self.nalloc += 1 << 20
+            self.fact(z3.And(r >= z3.simplify(lo), r < z3.simplify(lo + (1 << 20))))
+            self.fact(cls_of(r) == self.reg.cid(cls_name))
+            return r
         r = self.alloc0 + self.nalloc
         self.nalloc += 1
         r = z3.simplify(r)
@@ -719,18 +749,37 @@ class Interp:
         raise Unsupported(f'unbox type {T}')
 
     def ref_bound(self, e):
-        """Upper bound of a reference-valued Val expression.  A value read directly from a *pre-state* array
-        (a constant named `...@0`, never stored into) is a pre-state value: if it is a reference, the object
-        existed before the call.  (For a fresh index the pre-state array holds no meaningful value; the engine
-        already assumes that attributes are assigned before they are read.)"""
+        """Upper bound of a reference-valued Val expression.  A value read from a *pre-state* array (a constant
+        named `...@0`, never stored into) **at a pre-state object** is a pre-state value: if it is a reference,
+        the object existed before the call.  "At a pre-state object" is checked strictly: the index is built
+        from parameters and pre-state reads only.  (At any other index — an object a callee allocated, whose
+        contents the callee's postcondition describes — the same array term holds post-state data.)"""
         def pre_array(a):
             return z3.is_const(a) and a.decl().kind() == z3.Z3_OP_UNINTERPRETED and a.decl().name().endswith('@0')
-        if z3.is_app(e) and e.decl().kind() == z3.Z3_OP_SELECT:
-            a = e.arg(0)
-            if pre_array(a):
-                return self.st.alloc0
-            if z3.is_app(a) and a.decl().kind() == z3.Z3_OP_SELECT and pre_array(a.arg(0)):
-                return self.st.alloc0
+
+        def pre_term(t, depth=0):
+            if depth > 12:
+                return False
+            if z3.is_int_value(t) or z3.is_string_value(t):
+                return True
+            if not z3.is_app(t):
+                return False
+            k = t.decl().kind()
+            if t.num_args() == 0:
+                nm = t.decl().name()
+                return nm.startswith('p_') and '!' not in nm
+            if k == z3.Z3_OP_SELECT:
+                a = t.arg(0)
+                if pre_array(a):
+                    return pre_term(t.arg(1), depth + 1)
+                if z3.is_app(a) and a.decl().kind() == z3.Z3_OP_SELECT and pre_array(a.arg(0)):
+                    return pre_term(a.arg(1), depth + 1) and pre_term(t.arg(1), depth + 1)
+                return False
+            if k in (z3.Z3_OP_DT_ACCESSOR, z3.Z3_OP_DT_CONSTRUCTOR):
+                return all(pre_term(c, depth + 1) for c in t.children())
+            return False
+        if z3.is_app(e) and e.decl().kind() == z3.Z3_OP_SELECT and pre_term(e):
+            return self.st.alloc0
         return self.st.alloc0 + self.st.nalloc
 
     def conforms(self, e, T):
@@ -929,7 +978,7 @@ class Interp:
 
     def is_fresh(self, r) -> bool:
         d = z3.simplify(r - self.st.alloc0)
-        return z3.is_int_value(d) and d.as_long() >= 0
+        return (z3.is_int_value(d) and d.as_long() >= 0) or self.is_elem_ref(r)
 
     def alloc_object(self, cls_name: str) -> SV:
         r = self.st.new_ref(cls_name)
@@ -1052,6 +1101,27 @@ class Interp:
         d = z3.simplify(r - self.st.alloc0)
         return d.as_long() if z3.is_int_value(d) else None
 
+    @staticmethod
+    def is_elem_ref(r) -> bool:
+        """reference of an object allocated inside a symbolic iteration (State.new_ref under binders)"""
+        return z3.is_app(r) and r.num_args() > 0 and r.decl().kind() == z3.Z3_OP_UNINTERPRETED and \
+            r.decl().name().startswith('obj!')
+
+    def provably_distinct(self, r, idx) -> bool:
+        """syntactic sufficient condition for two reference terms to denote different objects"""
+        ro, io = self.fresh_offset(r), self.fresh_offset(idx)
+        re_, ie = self.is_elem_ref(r), self.is_elem_ref(idx)
+        if ro is not None and io is not None:
+            return ro != io
+        if (ro is not None and ie) or (io is not None and re_):
+            return True                       # a per-element block never overlaps a concrete allocation
+        r_new, i_new = ro is not None or re_, io is not None or ie
+        if r_new and not i_new:
+            return self.is_old_term(idx)
+        if i_new and not r_new:
+            return self.is_old_term(r)
+        return False
+
     def is_old_term(self, r) -> bool:
         """Syntactic sufficient condition for `r` denoting an object of the pre-state: the term
         mentions neither the allocation base nor a havocked/fresh symbol."""
@@ -1086,16 +1156,12 @@ class Interp:
     def peel(self, arr, r):
         """arr[r] with stores at provably different references skipped (old vs. fresh objects,
         two different fresh objects)."""
-        ro = self.fresh_offset(r)
-        r_old = ro is None and self.is_old_term(r)
         cur = arr
         while z3.is_app(cur) and cur.decl().kind() == z3.Z3_OP_STORE:
             idx = cur.arg(1)
             if idx.eq(r):
                 return z3.simplify(cur.arg(2))
-            io = self.fresh_offset(idx)
-            if (io is not None and (r_old or (ro is not None and ro != io))) or \
-                    (ro is not None and io is None and self.is_old_term(idx)):
+            if self.provably_distinct(r, idx):
                 cur = cur.arg(0)
                 continue
             break
@@ -2465,15 +2531,11 @@ class Interp:
     def peel_arr(self, arr, r):
         """the inner array stored for object r (like peel, but returns the array term itself)"""
         cur = arr
-        ro = self.fresh_offset(r)
-        r_old = ro is None and self.is_old_term(r)
         while z3.is_app(cur) and cur.decl().kind() == z3.Z3_OP_STORE:
             idx = cur.arg(1)
             if idx.eq(r):
                 return cur.arg(2)
-            io = self.fresh_offset(idx)
-            if (io is not None and (r_old or (ro is not None and ro != io))) or \
-                    (ro is not None and io is None and self.is_old_term(idx)):
+            if self.provably_distinct(r, idx):
                 cur = cur.arg(0)
                 continue
             break
@@ -2538,7 +2600,8 @@ class Interp:
         def base(v):
             # stores at objects allocated during this call do not change what pre-existing objects
             # look like: strip them (outermost first)
-            while z3.is_app(v) and v.decl().kind() == z3.Z3_OP_STORE and self.fresh_offset(v.arg(1)) is not None:
+            while z3.is_app(v) and v.decl().kind() == z3.Z3_OP_STORE and \
+                    (self.fresh_offset(v.arg(1)) is not None or self.is_elem_ref(v.arg(1))):
                 v = v.arg(0)
             return v
         items = []
@@ -3015,7 +3078,7 @@ class Interp:
                     ok = bool(refs)
                     for r in refs:
                         d = z3.simplify(r - sub_state.alloc0)
-                        if not (z3.is_int_value(d) and d.as_long() >= base_nalloc):
+                        if not (z3.is_int_value(d) and d.as_long() >= base_nalloc) and not self.is_elem_ref(r):
                             ok = False
                             break
                     if ok:
